@@ -310,7 +310,17 @@ struct Stats {
 	}
 };
 
-std::string g_outdir, g_replaydir;
+std::string g_outdir, g_replaydir, g_dumpdir;
+long g_dumped = 0;
+
+// binary form understood by fuzz/fuzz_ops.cc: 8 x uint16 (little endian) per record
+void dump_binary(const Raw& raw)
+{
+	if (g_dumpdir.empty() || g_dumped >= 400 || raw.size() < 2) return;
+	std::string path = g_dumpdir + "/w" + std::to_string(::getpid()) + "-" + std::to_string(g_dumped++) + ".bin";
+	std::ofstream os(path, std::ios::binary);
+	for (const Rec& r : raw) for (uint32_t v : r) { os.put(static_cast<char>(v & 0xff)); os.put(static_cast<char>((v >> 8) & 0xff)); }
+}
 std::set<std::string> g_known;     // open known-finding signatures: swallowed, counted
 int g_worker = 0;
 
@@ -437,6 +447,7 @@ int main(int argc, char** argv)
 		else if (a == "--replay-dir") g_replaydir = val();
 		else if (a == "--tmp-dir") g_outdir = val();
 		else if (a == "--expect-sig") expectSig = val();
+		else if (a == "--dump-dir") g_dumpdir = val();
 		else if (a == "--known") {
 			std::string k = val();
 			size_t p = 0;
@@ -554,6 +565,7 @@ int main(int argc, char** argv)
 				CaseResult r = evaluate(raw, true);
 				st.add(r);
 				++doneThisRound;
+				if (r.nontrivial) dump_binary(raw);
 				if (r.timeout && st.timeouts <= 2) {
 					// keep a sample of what was inconclusive
 					write_replay(raw, "timeout-sample:" + (r.incon.empty() ? std::string() : r.incon[0]), "inconclusive (slow)", r.text, "");
